@@ -5,6 +5,7 @@ import (
 	"go/constant"
 	"go/token"
 	"go/types"
+	"os"
 
 	"golang.org/x/tools/go/ssa"
 
@@ -69,9 +70,11 @@ type Machine struct {
 	// (counted in Cuts) instead of failing the whole exploration
 	LoopCut int
 	Cuts    int
-	GoStmts int // go statements interpreted (sequential schedule)
-	cellSeq int
-	depth   int
+	// PinAtoms != nil: the atoms of the base facts are fixed to these values (filled on demand)
+	PinAtoms map[string]int64
+	GoStmts  int // go statements interpreted (sequential schedule)
+	cellSeq  int
+	depth    int
 
 	// OnStore, when set, observes every store performed by interpreted code (cell written, position).
 	OnStore func(c *Cell, pos token.Pos, fn *ssa.Function)
@@ -110,8 +113,26 @@ func (m *Machine) Emit(kind string, pos token.Pos, kv ...string) {
 /* ---------- path conditions ---------- */
 
 func (m *Machine) ctx() []sym.Constraint {
-	out := make([]sym.Constraint, 0, len(m.Base)+len(m.PC))
+	out := make([]sym.Constraint, 0, len(m.Base)+len(m.PC)+4)
 	out = append(out, m.Base...)
+	if m.PinAtoms != nil {
+		// concrete-size fallback: every atom the base facts speak about is fixed to a small constant
+		seen := map[string]bool{}
+		for _, c := range m.Base {
+			for _, a := range c.P.Atoms() {
+				if seen[a] || sym.IsStructAtom(a) {
+					continue
+				}
+				seen[a] = true
+				v, ok := m.PinAtoms[a]
+				if !ok {
+					v = 2 + int64(len(m.PinAtoms)%2)
+					m.PinAtoms[a] = v
+				}
+				out = append(out, sym.CEq(sym.PAtom(a), sym.PInt(v)))
+			}
+		}
+	}
 	out = append(out, m.PC...)
 	return out
 }
@@ -292,6 +313,11 @@ func (m *Machine) Concretize(v IntV, lo, hi int) (int, bool) {
 			}
 		}
 	}
+	if hi-lo > 12 && m.PinAtoms != nil {
+		// concrete-size fallback: an unconstrained length is explored for its smallest values only (bounded)
+		hi = lo + 3
+		m.PC = append(m.PC, sym.CLe(v.P, sym.PInt(int64(hi))))
+	}
 	if hi-lo > 12 {
 		// an unbounded symbolic length/index would mean enumerating every value: outside the fragment
 		panic(Unsupported{"symbolic integer " + v.P.String() + " used as a length or index over a wide range"})
@@ -414,6 +440,7 @@ type frame struct {
 	fn     *ssa.Function
 	locals map[ssa.Value]Value
 	defers []func()
+	forkAt map[ssa.Instruction]int
 }
 
 func (m *Machine) progPanic(fr *frame, pos token.Pos, format string, a ...any) {
@@ -611,16 +638,21 @@ func (m *Machine) execBlock(fr *frame, b *ssa.BasicBlock, prev *ssa.BasicBlock) 
 				before := m.pos
 				taken = m.Branch(bv.C)
 				if m.pos != before {
-					if m.forkAt == nil {
-						m.forkAt = map[ssa.Instruction]int{}
+					// counted per activation: a loop over a symbolic bound forks again and again at one branch of one
+					// running function; a kernel that is called once per element gets a fresh count each time
+					if fr.forkAt == nil {
+						fr.forkAt = map[ssa.Instruction]int{}
 					}
-					m.forkAt[x]++
-					if m.LoopCut > 0 && m.forkAt[x] > m.LoopCut {
+					fr.forkAt[x]++
+					if m.LoopCut > 0 && fr.forkAt[x] > m.LoopCut {
 						// bounded unrolling: this path iterates a symbolic-bound loop further than the bound; it
 						// is abandoned (and counted), the shorter paths are explored completely
+						if os.Getenv("QVERIF_DEBUG") != "" {
+							fmt.Fprintf(os.Stderr, "DBG cut in %s at %s cond=%v\n", fr.fn.String(), m.Prog.Fset.Position(x.Pos()), Describe(m.get(fr, x.Cond)))
+						}
 						panic(CutPath{Why: "more than " + fmt.Sprint(m.LoopCut) + " iterations of a loop over a symbolic bound"})
 					}
-					if m.forkAt[x] > 12 {
+					if fr.forkAt[x] > 12 {
 						panic(Unsupported{"loop whose bound is a symbolic integer (the same branch forked more than 12 times on one path)"})
 					}
 				}
